@@ -7,4 +7,5 @@ export GOFLAGS=-mod=mod GOPROXY=off VERIF_ROOT="$here"
 if [ ! -x "$here/bin/gosym" ] || [ -n "$(find "$here/engine" -name '*.go' -newer "$here/bin/gosym" 2>/dev/null | head -1)" ]; then
   VERIF_SKIP_SELFTEST=1 sh "$here/setup.sh" >/dev/null || { echo "INCONCLUSIVE: engine build failed"; exit 2; }
 fi
-exec "$here/bin/gosym" check --property "$1" --tier "${2:-quick}"
+# VERIF_REPO: check another checkout than /repo (used for background runs on a snapshot)
+exec "$here/bin/gosym" check --property "$1" --tier "${2:-quick}" --repo "${VERIF_REPO:-/repo}"
